@@ -2,7 +2,7 @@
 P (all inputs): delegation binding of every wrapper in analytic.py, never-bound names ("accepted rather than crashing").
 B (bounded, E3): real code on symbolic reals with the odeint contract stub: time grid, row 0, conservation."""
 from ..common import Report, Ob
-from ..effects import binding, names
+from ..effects import binding, names, frames
 from ..symnum import c06
 
 
@@ -16,6 +16,10 @@ def run(tier, seed):
         rep.add(ob)
     for ob in c06.direct_obligations(tier):
         rep.add(ob)
+    for ob in c06.wrapper_full_data_obligations(tier):
+        rep.add(ob)
+    for ob in frames.rhs_obligations():
+        rep.add(ob)
     rep.level = 'other'
     rep.functions.append(dict(file='EoN/analytic.py', qualname='all *_from_graph and *_pure_IC entry points (E3); every function (binding, names)'))
     rep.explanation = ('Unbounded part: every internal call site of analytic.py binds the wrapper parameters (initial sets, rho, time grid, flags, '
@@ -24,7 +28,9 @@ def run(tier, seed):
                        'symbolic tau/gamma/rho and the odeint contract stub; times == linspace, row 0 == the requested initial state, and '
                        'S+I(+R) == N in every row either identically or because the gradient of the total annihilates the model\'s own '
                        'right-hand side.')
-    rep.assumptions += ['odeint / _my_odeint_ contract: shape (len(times), len(X0)), row 0 = X0; numpy elementwise semantics on object arrays',
+    rep.assumptions += ['the right-hand sides handed to odeint do not write into the state vector (frame obligation frame-rhs:*, decided for all inputs)',
+                        'full data of the wrappers: each auxiliary series at tmin equals the count defined directly from the graph and the initial sets (independent oracle in vlib/symnum/c06.py)',
+                        'odeint / _my_odeint_ contract: shape (len(times), len(X0)), row 0 = X0; numpy elementwise semantics on object arrays',
                         'M (not checked): orthant invariance of the flows; "compartments within [0,N]" and monotone S/R for SIR are not decided here',
                         'full-data order: each returned series named X in the return statement starts from the input X0 (one exact input per direct model)']
     rep.trusted = ['sympy simplification returning 0', 'the odeint contract stub in vlib/symnum/harness.py', 'binding / names flow analyses']
